@@ -630,7 +630,7 @@ class Tr(object):
           ('(Some %s)' % arg(colids, 'zlist')) if colids is not None else 'None',
           arg(rec, 'zlist') if rec is not None else '[]')
     if d == 'self._engine.add_records' and len(c.args) == 3:
-      return '(gen_add_records all_columns %s)' % arg(c.args[1], 'zlist')
+      return '(gen_add_records all_columns %s %s)' % (arg(c.args[1], 'zlist'), arg(c.args[2], 'dict'))
     if d == 'self._do_doc_action' and len(c.args) == 1 and isinstance(c.args[0], ast.Name):
       t, ty = self.expr(c.args[0], env)
       kind = self.spec.get('action_kind', {}).get(c.args[0].id)
@@ -651,7 +651,7 @@ class Tr(object):
 # functions
 
 COQ_TYPE = {'Z': 'Z', 'bool': 'bool', 'zlist': 'list Z', 'rows': 'rowsel', 'optzlist': 'option (list Z)',
-            'col': 'colinfo', 'cols': 'list colinfo', 'dict': 'list (Z * list Z)', 'action': 'action',
+            'col': 'colinfo', 'cols': 'list colinfo', 'dict': 'list (Z * list Z)', 'action': 'bulk_action',
             'effs': 'list eff'}
 
 
